@@ -779,6 +779,50 @@ static void doUsage(const vj::Value& cfg, const vj::Value& act) {
       .raw("entries", entries).num("stray", stray).str("what", outcome == "ok" ? "" : text).emit();
 }
 
+// C17 (usage layout): the usage is a text block per argument behind the key column.  The handler prints its usage once or twice
+// (first through the stream operator or not at all, then through the given command line, e.g. "--print-hidden -h"); recorded are, for
+// every line of the LAST printout, its length and the number of words it holds, plus the line length in force.
+static void doUsageLayout(const vj::Value& cfg, const vj::Value& act) {
+   std::string outcome = "ok", text;
+   const long width = static_cast<long>(act["width"].num());
+   try {
+      auto b = build(cfg, false, Handler::hfUsageCont);
+      if (b->setupFailed) outcome = "setup";
+      else {
+         if (width > 0) b->single->setUsageLineLength(static_cast<int>(width));
+         if (act["first"].str() == "stream") { std::ostringstream oss; oss << *b->single; }
+         else if (act["first"].str() == "help") {
+            std::vector<std::string> w1{"-h"};
+            Argv av1("prog", w1);
+            b->single->evalArguments(av1.argc, av1.arr.get());
+            b->out.str("");
+         }
+         std::vector<std::string> words = wordsOf(act["argv"]);
+         if (words.empty()) { std::ostringstream oss; oss << *b->single; text = oss.str(); }
+         else {
+            Argv av("prog", words);
+            b->single->evalArguments(av.argc, av.arr.get());
+            text = b->out.str();
+         }
+      }
+   } catch (const std::exception& e) { outcome = "err"; text = e.what(); }
+   std::string lens = "[", nwords = "[";
+   if (outcome == "ok") {
+      std::istringstream is(text);
+      std::string ln; bool f = true;
+      while (std::getline(is, ln)) {
+         int nw = 0; bool in = false;
+         for (char ch : ln) { if (ch != ' ' && !in) { ++nw; in = true; } else if (ch == ' ') in = false; }
+         if (!f) { lens += ','; nwords += ','; }
+         f = false;
+         lens += std::to_string(ln.size()); nwords += std::to_string(nw);
+      }
+   }
+   lens += "]"; nwords += "]";
+   vj::Line().str("e", "UsageLayout").str("first", act["first"].str()).raw("argv", dump(act["argv"])).str("out", outcome)
+      .num("width", width > 0 ? width : 80).raw("lens", lens).raw("nwords", nwords).str("what", outcome == "ok" ? "" : text).emit();
+}
+
 // C18: help for a single argument (--help-arg=<key>)
 static void doHelpArg(const vj::Value& cfg, const vj::Value& act) {
    std::string outcome = "ok";
@@ -1063,6 +1107,7 @@ int main(int argc, char** argv) {
       else if (name == "Split") doSplit(act);
       else if (name == "Usage") doUsage(cfg, act);
       else if (name == "HelpArg") doHelpArg(cfg, act);
+      else if (name == "UsageLayout") doUsageLayout(cfg, act);
       else if (name == "Summary") doSummary(cfg, act);
    }
    fclose(f);
